@@ -393,10 +393,19 @@ func (g *Graph) boolLocalDef(e ast.Expr) (ast.Expr, int) {
 	return def, dv
 }
 
-// taglessCase: e is the single expression of a case clause of a switch without tag.
+// taglessCase: e is one of the expressions of a case clause of a switch without tag.
 func (g *Graph) taglessCase(st ast.Stmt, e ast.Expr) bool {
 	cc, _ := st.(*ast.CaseClause)
-	if cc == nil || len(cc.List) != 1 || cc.List[0] != e {
+	if cc == nil {
+		return false
+	}
+	found := false
+	for _, x := range cc.List {
+		if x == e {
+			found = true // `case a, b:` tests a, then b: each is a condition whose true edge enters the body
+		}
+	}
+	if !found {
 		return false
 	}
 	blk, ok := g.F.ParentOf(cc).(*ast.BlockStmt)
